@@ -5,6 +5,7 @@ import (
 	"fmt"
 	"reflect"
 	"strings"
+	"sync"
 
 	mxj "github.com/clbanning/mxj/v2"
 	"verif/harness/tagged"
@@ -145,10 +146,55 @@ type mutLine struct {
 	Ops []mutOp    `json:"ops"`
 }
 
+var mutBytesOnce sync.Once
+
+// keys are byte strings: a key that is not valid UTF-8 (an untranscoded Latin-1 name in a hand-built Map), a multi-byte key and an
+// ASCII key behave alike -- the instance of RemoveOp / RenameOp / SetOp on {"menu": {K: "x", "ok": "y"}} for each such K
+func mutByteKeys(a *Acc) {
+	c := mutLine{F: "mut"}
+	for _, k := range []string{"caf\xe9", "caf\u00e9", "\xff", "cafe"} {
+		mk := func() mxj.Map { return mxj.Map{"menu": map[string]interface{}{k: "x", "ok": "y"}} }
+		inner := func(m mxj.Map) map[string]interface{} { return m["menu"].(map[string]interface{}) }
+		m := mk()
+		err := m.Remove("menu." + k)
+		if _, still := inner(m)[k]; err != nil || still || len(inner(m)) != 1 || inner(m)["ok"] != "y" {
+			a.Mis("mut:byte-keys:remove", fmt.Sprintf("Remove(%q) on {\"menu\":{%q:\"x\",\"ok\":\"y\"}}: err %v, afterwards menu = %q", "menu."+k, k, err, fmt.Sprint(inner(m))), c)
+		}
+		m = mk()
+		err = m.RenameKey("menu."+k, "coffee")
+		if _, still := inner(m)[k]; err != nil || still || len(inner(m)) != 2 || inner(m)["coffee"] != "x" || inner(m)["ok"] != "y" {
+			a.Mis("mut:byte-keys:rename", fmt.Sprintf("RenameKey(%q, \"coffee\") on {\"menu\":{%q:\"x\",\"ok\":\"y\"}}: err %v, afterwards menu = %q", "menu."+k, k, err, fmt.Sprint(inner(m))), c)
+		}
+		m = mk()
+		err = m.RenameKey("menu.ok", k+"2")
+		if err != nil || len(inner(m)) != 2 || inner(m)[k+"2"] != "y" || inner(m)[k] != "x" {
+			a.Mis("mut:byte-keys:rename", fmt.Sprintf("RenameKey(\"menu.ok\", %q) on {\"menu\":{%q:\"x\",\"ok\":\"y\"}}: err %v, afterwards menu = %q", k+"2", k, err, fmt.Sprint(inner(m))), c)
+		}
+		m = mk()
+		err = m.SetValueForPath("N", "menu."+k)
+		if err != nil || len(inner(m)) != 2 || inner(m)[k] != "N" || inner(m)["ok"] != "y" {
+			a.Mis("mut:byte-keys:set", fmt.Sprintf("SetValueForPath(\"N\", %q) on {\"menu\":{%q:\"x\",\"ok\":\"y\"}}: err %v, afterwards menu = %q", "menu."+k, k, err, fmt.Sprint(inner(m))), c)
+		}
+		m = mk()
+		n, err := m.UpdateValuesForPath(map[string]interface{}{k: "N"}, "menu")
+		if err != nil || n != 1 || inner(m)[k] != "N" || inner(m)["ok"] != "y" {
+			a.Mis("mut:byte-keys:update", fmt.Sprintf("UpdateValuesForPath({%q:\"N\"}, \"menu\") on {\"menu\":{%q:\"x\",\"ok\":\"y\"}}: %d, err %v, afterwards menu = %q", k, k, n, err, fmt.Sprint(inner(m))), c)
+		}
+		vs, err := mk().ValuesForPath("menu." + k)
+		if err != nil || len(vs) != 1 || vs[0] != "x" {
+			a.Mis("mut:byte-keys:query", fmt.Sprintf("ValuesForPath(%q) on {\"menu\":{%q:\"x\",\"ok\":\"y\"}} = %v, err %v", "menu."+k, k, vs, err), c)
+		}
+	}
+}
+
 func replayMut(line []byte, a *Acc) {
 	var l mutLine
 	if err := json.Unmarshal(line, &l); err != nil {
 		panic(err)
+	}
+	mutBytesOnce.Do(func() { mutByteKeys(a) })
+	if l.M == nil {
+		return // (the replay case of a byte-key finding: the check has just run again)
 	}
 	pre := l.M.Norm()
 	nontriv := 0
